@@ -234,8 +234,15 @@ func migrateExpression(env envs.Environment, expression string, options *Migrate
 		return "", visitor.err
 	}
 
+	// an expression that the new parser doesn't accept (e.g. one nested too deeply for it, whose operands can't have
+	// been parenthesized properly either) hasn't been migrated
+	migrated := value.(string)
+	if _, err := excellent.Parse(migrated, nil); err != nil {
+		return "", err
+	}
+
 	// all is good, return our value
-	return value.(string), nil
+	return migrated, nil
 }
 
 var functionCallRegex = regexp.MustCompile(`^(\w+)\(`)
